@@ -14,5 +14,23 @@ CHECKS = {
              technique='copy_block / non-updating passes: SMT equivalence copy==source per instance (PB) + executable frame contract (fingerprint, identity disjointness, working block) (B)',
              text='bounded; frame conditions checked at run time on the family, not proved statically', note=TB),
 }
+CHECKS.update({
+ 'C01': dict(category='proof', engines=['pyvc', 'elab'],
+             technique='contracts on the real Simulation functions (simple_func table, _sanitize, bitmask, _execute incl. loop invariants for concat/select, _mem_update, RomBlock._get_read_data) discharged by z3 from VCs generated over the real ASTs; executable-contract cross-check on CPython; bounded whole-simulator runs against the reference cycle semantics',
+             text='per-function contracts proved for all widths/values/iteration counts (level P); step/_initialize/__iter__ glue covered by the bounded family (level B), labelled bounded',
+             note='pyvc VC generator and its Python-semantics assumptions (DESIGN 3); z3; int theory rewrites (lean/PyInt.lean)'),
+ 'C02': dict(category='other', engines=['elab'],
+             technique='bounded stand-in (level B): FastSimulation / CompiledSimulation executed on the design family incl. limb-crossing widths and synthesized/optimized blocks, compared per cycle and wire with the reference cycle semantics that Simulation is verified against',
+             text='bounded runs; no deductive contract on the code generators yet', note='spec/cycle.py; gcc; host CPU'),
+ 'C06': dict(category='other', engines=['elab'],
+             technique='contracts (len, den) on WireVector operators and core helpers: bounded stand-in - real operators elaborated per width combination, exact-result and documented-width postconditions decided by SMT for all operand values',
+             text='bounded in widths, complete in values', note=TB),
+ 'C13': dict(category='other', engines=['elab'],
+             technique='contracts on rtllib adders/multipliers: bounded stand-in per width/parameter combination, exactness decided by SMT for all values; BMC of the sequential multipliers from an arbitrary register state',
+             text='bounded in widths, complete in values', note=TB),
+ 'C14': dict(category='other', engines=['elab'],
+             technique='contracts on mux/bitfield/pattern/struct helpers: bounded stand-in per shape, decided by SMT for all data values',
+             text='bounded in shapes, complete in values', note=TB),
+})
 NA = {pid: 'check not built yet in this round (work in progress)' for pid in
-      ['C01', 'C02', 'C05', 'C06', 'C07', 'C08', 'C10', 'C12', 'C13', 'C14', 'C15', 'C16', 'C17', 'C18', 'C19', 'C20']}
+      ['C05', 'C07', 'C08', 'C10', 'C12', 'C15', 'C16', 'C17', 'C18', 'C19', 'C20']}
